@@ -16,9 +16,9 @@ def prop(pid):
     return deco
 TESTED_ONLY = {
  'C01': ['the vertex-set reading (basis of exactly k+1 points, no two simplices sharing a basis) is proved for every history of in-contract operations (points, add by basis, deletions, restrict, renames); after add by faces with caller-supplied faces, subdivide, bulk add, compose, and maxOrder = largest populated order: proved only for complexes on <= 4 points (kernel sweep); beyond that by the wf oracle after every step of every history'],
- 'C02': ['the vertex-set reading of the star; that add by basis adds every missing subset (what it adds is proved to be new, inside the basis, and to leave everything else alone); effects and frames of restrict / subdivide beyond 4 points; bulk add under a renaming; attribute read-back (oracle c02-pre/post)'],
+ 'C02': ['subdivide beyond 4 points; bulk add under a renaming; attribute read-back (oracle c02-pre/post); the vertex-set effects of add by basis, delete, delete by basis and restrict are proved for every complex that meets the vertex-set reading'],
  'C03': ['d.d = 0 and boundary() of chains beyond 4 points (views oracle after every step); shapes, entries, cofaces = inverse of faces and basis = points of the closure are proved for every history'],
- 'C04': ['the vertex-set reading of closure / star (subsets, supersets, 2^(k+1)-1 members), sortedness, lookups beyond 4 points; disjoint() beyond 3 points and for 4-tuples; returned names having the Python type they were created with (oracle c04); closure/star duality and no-repeats of the star are proved for every history'],
+ 'C04': ['sortedness by order, exclude_self variants, lookup by faces beyond 4 points; disjoint() beyond 3 points and for 4-tuples; returned names having the Python type they were created with (oracle c04); subsets / supersets / 2^(k+1)-1 members / lookup by basis are proved for every complex that meets the vertex-set reading'],
  'C05': ['continuation after a rejected call for requests with generated names / fresh dictionaries (twin-history oracle, up to generated names); atomicity of addSimplexWithBasis / relabel beyond the cases proved; a classification-complete invalid <=> rejected'],
  'C06': ['invariance under insertion order / copies / decoding (oracle c06-inv); the boundary operators being those of the stored complex is C03; the rank formula, orders above the maximum, Euler-Poincare, independence of names and betti 0 = number of connected components are proved'],
  'C07': ['boundary() of a returned chain being [] through the public call (oracle c07); count, cycles (on the matrix) and independence are proved'],
@@ -32,7 +32,7 @@ TESTED_ONLY = {
  'C15': ['the renaming function of a whole relabel being the user mapping on every name, attributes along it, relabelDisjointFrom renaming only collisions, addSimplicesFrom isomorphism (oracle c15-pre/post); names-only, structure carried and Betti invariance are proved'],
  'C16': ['compatible => accepted, merged attribute values, target complexes (oracle c16); result = union and accepted => compatible are proved for every pair'],
  'C17': ['the JSON text layer (json.dumps / loads, files), name types, nested / unicode attribute values, wrapping in other JSON, filtrations, acceptance of every encoding (oracle c17); the structural round trip is proved for every complex'],
- 'C18': ['arbitrary targets beyond 3 points; requested name / attributes of the top simplex on non-empty targets (oracle c18)'],
+ 'C18': ['counts as binomials and Betti numbers beyond k = 6; skeleton / ring / lattice on arbitrary targets beyond 3 points; requested name / attributes of the top simplex on non-empty targets (oracle c18); k_simplex / k_void in vertex sets with the frame clause are proved for every target that meets the vertex-set reading'],
  'C19': ['the Euler integral: level-set and simplex-wise formulas, default value, additivity, input unchanged (oracle c19); Euler characteristic = alternating Betti sum is proved for every history'],
  'C20': ['positionsOf / len / in against the complex (oracle c20); Euclidean distance and lattice positions on arbitrary doubles: the binary64 model is compared bit for bit with the code on every run, not proved about real numbers'],
 }
